@@ -42,7 +42,7 @@ def run_schedule(makers, schedule):
     steps = 0
     for tid in schedule:
         if done[tid]:
-            raise RuntimeError("schedule steps a finished decoder: divergence between the dry run and the replay")
+            continue  # finished earlier than in its solo run: the comparison of the results reports it
         steps += 1
         try:
             outs[tid].append(next(gens[tid]))
@@ -52,4 +52,16 @@ def run_schedule(makers, schedule):
         except Exception as e:  # noqa: BLE001
             done[tid] = True
             errs[tid] = e
+    # a decoder that needs more steps than in its solo run is drained at the end (the results will differ)
+    for tid, g in enumerate(gens):
+        while not done[tid] and len(outs[tid]) < 100000:
+            steps += 1
+            try:
+                outs[tid].append(next(g))
+            except StopIteration as s:
+                done[tid] = True
+                rets[tid] = s.value
+            except Exception as e:  # noqa: BLE001
+                done[tid] = True
+                errs[tid] = e
     return outs, rets, errs, done, steps
